@@ -20,7 +20,7 @@ FINISH = dict(
          '(const zero / const / variant / duplicate / hidden) x precondition; each embedded by several (fields, value map, background, '
          'trace layout, geometry) embeddings and converted in the 4 modes; NumPy route: subsets of fields x integer dtypes; '
          'non-trivial = distinct (embedding, matrix, mode)',
-    assumptions=['header values fit the field width (segyio truncates otherwise)', 'irregular sources are inline sorted',
+    assumptions=['header values fit the field width (segyio truncates otherwise)', 'irregular sources are inline sorted (C08); regular sources inline- or crossline-sorted',
                  'for the default detection the property only speaks when its precondition holds; decided by TLC on the real matrix'],
     trusted=['segyio', 'numpy', 'TLC'])
 
@@ -64,6 +64,8 @@ def value_map(fields, variant):
 GEOMS = {
     'reg2x2': ('reg', (2, 2), ()), 'reg2x3': ('reg', (2, 3), ()), 'reg8x16': ('reg', (8, 16), ()), 'reg3x43': ('reg', (3, 43), ()),
     'reg5x26': ('reg', (5, 26), ()),
+    # the same regular cubes stored crossline-sorted (file order: for each crossline, every inline)
+    'regx2x3': ('regx', (2, 3), ()), 'regx3x3': ('regx', (3, 3), ()), 'regx5x26': ('regx', (5, 26), ()), 'regx9x4': ('regx', (9, 4), ()),
     'irr2x2': ('irr', (2, 2), ((0, 1),)), 'irr3x3': ('irr', (3, 3), ((0, 0), (1, 1))), 'irr4x5': ('irr', (4, 5), ((3, 4), (0, 2), (2, 0))),
     'irr9x15': ('irr', (9, 15), tuple((i, (i * 7) % 15) for i in range(6))),
     '2d0-5': ('2d0', (1, 5), ()), '2d0-129': ('2d0', (1, 129), ()), '2dil-6': ('2dil', (1, 6), ()), '2dxl-4': ('2dxl', (4, 1), ()),
@@ -73,7 +75,9 @@ GEOMS = {
 def geometry(name):
     kind, (ni, nx), holes = GEOMS[name]
     pos = [(i, x) for i in range(ni) for x in range(nx) if (i, x) not in holes]
-    if kind in ('reg', 'irr'):
+    if kind == 'regx':
+        pos = [(i, x) for x in range(nx) for i in range(ni)]
+    if kind in ('reg', 'irr', 'regx'):
         ilxl = [(10 + 2 * i, 5 + 3 * x) for i, x in pos]
     elif kind == '2d0':
         ilxl = [(0, 0) for _ in pos]
@@ -205,6 +209,9 @@ def _segy_worker(item):
         keys = KEYS()
         with segyio.open(sgy, strict=False) as s:
             truth = np.array([[int(s.header[i][k]) for k in keys] for i in range(n)], dtype=np.int64)
+        if kind == 'regx':      # trace i of a regular SGZ is grid position i (inline-major): the source header AT that position
+            pos = geometry(case['geom'])[1]
+            truth = truth[sorted(range(n), key=lambda t: pos[t])]
         out['n'] = n
         out['mask'] = mask
         # the matrix handed to TLC: values renamed to small codes (0 stays 0) - only equality and zero-ness matter
@@ -325,8 +332,8 @@ def plan(run):
     quick = run.tier == 'quick'
     chosen = abstract_matrices(run, 2 if quick else 24)
     rng = np.random.default_rng(run.seed + 1)
-    small = ['reg2x2', 'reg2x3', 'irr2x2', 'irr3x3', '2d0-5', '2dil-6', '2dxl-4', 'irr4x5']
-    big = ['reg8x16', 'reg3x43', 'reg5x26', 'irr9x15', '2d0-129']
+    small = ['reg2x2', 'reg2x3', 'irr2x2', 'irr3x3', '2d0-5', '2dil-6', '2dxl-4', 'irr4x5', 'regx2x3', 'regx3x3']
+    big = ['reg8x16', 'reg3x43', 'reg5x26', 'irr9x15', '2d0-129', 'regx5x26', 'regx9x4']
     cases = []
     for k, (key, mat) in enumerate(chosen):
         g = small[k % len(small)]
